@@ -28,6 +28,10 @@ CLAIMED = {
          "For each of ~40 operator slots of Payload and CoordPayload the computed expression, operand order, both operand kinds, result kind and (for in-place forms) the store into the same box are checked against the canonical table; dead (Python 2) slots and missing reflected/in-place siblings are reported; Fiber +,*,+=,*= forms must iterate the union / intersection / shape / stored elements their definition names. Decides all inputs for boxes and elements; fiber-level numeric results are not decided.",
          "Trusts: Python's operator dispatch rules; int/float arithmetic of the boxed values.",
          "DESIGN.md section 3, C11"),
+ "C04": ("schema-instance recogniser: each merge loop is matched against the proven two-finger schema with the operator's truth table (branches, advance sets, emission table, emitted slots/mask, tails) + effect summary for operand purity",
+         "The two-finger schema M(op) is proven correct on paper (loop invariant in sa/rules/c04.py); the check decides, from the current source, that each of &, |, ^, - is an instance of M(op): three-way split on the two heads, per-branch advance discipline (incl. the arity-dependent succ_next table), emission exactly where the truth table says, present side's own payload / fresh unregistered default of the absent side / correct mask, tails draining the right side, operands not written. Holds for all operand pairs. Not decided: tuple un-nesting of n-ary forms, leader-follower lookups, ANY-padded prefix matching.",
+         "Trusts: operand streams strictly increasing (C01 + asserted precondition); default iteration delivers non-empty elements (C12.R1).",
+         "DESIGN.md section 3, C04"),
 }
 
 NOT_APPLICABLE = {
